@@ -53,17 +53,8 @@ func setPropsFromMapRecursive(val reflect.Value, updates map[string]any) (staged
 
 			found = true
 			if fieldVal.Kind() == reflect.Struct {
-				// If the value is a map, it's a nested update
-				if nestedUpdates, ok := value.(map[string]any); ok {
-					nestedStaged, err := setPropsFromMapRecursive(fieldVal.Addr(), nestedUpdates)
-					if err != nil {
-						return nil, err
-					}
-					stagedProps = append(stagedProps, nestedStaged...)
-					break
-				}
-
-				// Check if it's a ConfigProp
+				// Check if it's a ConfigProp. This must come first: a ConfigProp is a struct too, and
+				// descending into it with a JSON object panics on its unexported fields.
 				if fieldVal.CanAddr() {
 					fieldAddr := fieldVal.Addr()
 					if prop, ok := fieldAddr.Interface().(StagedConfigProp); ok {
@@ -79,6 +70,16 @@ func setPropsFromMapRecursive(val reflect.Value, updates map[string]any) (staged
 						stagedProps = append(stagedProps, prop)
 						break
 					}
+				}
+
+				// If the value is a map, it's a nested update
+				if nestedUpdates, ok := value.(map[string]any); ok {
+					nestedStaged, err := setPropsFromMapRecursive(fieldVal.Addr(), nestedUpdates)
+					if err != nil {
+						return nil, err
+					}
+					stagedProps = append(stagedProps, nestedStaged...)
+					break
 				}
 			}
 			break
